@@ -1381,6 +1381,9 @@ func (w *Proxy) setupH1Client(ci int, reqIdxP *int) {
 	{
 		cl := peers.NewH1Client(s, w.H, fmt.Sprintf("cl%d", ci))
 		w.h1clients = append(w.h1clients, cl)
+		if (w.Prop == "C07" || w.Prop == "C01") && !p.Faults && p.Acts == nil && len(p.Filters) == 0 && ch.Chance("work", "h1pipeline", 1, 3) {
+			cl.Pipeline = true // this client sends its next request right behind the outstanding one
+		}
 		seg := p.SegMode
 		cl.Connect = func() *sim.Conn {
 			c := w.N.Connect(w.addrFor(ci), cl.Name, cl)
